@@ -1,3 +1,4 @@
+import Cpppo.Props.C01
 import Cpppo.Props.C03
 import Cpppo.Props.C04
 import Cpppo.Props.C05
